@@ -77,5 +77,43 @@ def main():
     sys.exit(1 if fails else 0)
 
 
+def main_gen_vm():
+    """gens with their own voltage limits, one looser than its bus on the upper side, another looser on the lower side"""
+    fails = []
+    for gmin, l3 in ((0.98, (40., 25.)), (0.99, (20., 10.))):
+        net = pp.create_empty_network()
+        b = [pp.create_bus(net, 110., min_vm_pu=0.95, max_vm_pu=1.05) for _ in range(4)]
+        pp.create_ext_grid(net, b[0], vm_pu=1.0, min_p_mw=-500, max_p_mw=500, min_q_mvar=-500, max_q_mvar=500)
+        for f, t in ((0, 1), (1, 2), (2, 3)):
+            pp.create_line_from_parameters(net, b[f], b[t], 40., 0.06, 0.4, 10., 1., max_loading_percent=100)
+        pp.create_load(net, b[1], 60., 30.); pp.create_load(net, b[2], 50., 30.); pp.create_load(net, b[3], *l3)
+        pp.create_gen(net, b[1], p_mw=20., vm_pu=1.0, controllable=True, min_p_mw=0, max_p_mw=60, min_q_mvar=-50, max_q_mvar=50, min_vm_pu=0.90, max_vm_pu=1.02)
+        pp.create_gen(net, b[3], p_mw=20., vm_pu=1.0, controllable=True, min_p_mw=0, max_p_mw=60, min_q_mvar=-50, max_q_mvar=50, min_vm_pu=gmin, max_vm_pu=1.2)
+        pp.create_poly_cost(net, 0, "ext_grid", cp1_eur_per_mw=10.)
+        pp.create_poly_cost(net, 0, "gen", cp1_eur_per_mw=30.)
+        pp.create_poly_cost(net, 1, "gen", cp1_eur_per_mw=100., cq1_eur_per_mvar=60.)
+        try:
+            pp.runopp(net)
+        except Exception as e:
+            print(f"note: OPF did not converge ({type(e).__name__})")
+            continue
+        for g in net.gen.index:
+            bus = net.gen.bus.at[g]
+            lo = max(net.bus.min_vm_pu.at[bus], net.gen.min_vm_pu.at[g])
+            hi = min(net.bus.max_vm_pu.at[bus], net.gen.max_vm_pu.at[g])
+            vm = net.res_bus.vm_pu.at[bus]
+            if vm < lo - 1e-4 or vm > hi + 1e-4:
+                fails.append(f"gen {g} (min_vm_pu {net.gen.min_vm_pu.at[g]}, max_vm_pu {net.gen.max_vm_pu.at[g]}) at bus {bus} (limits "
+                             f"[{net.bus.min_vm_pu.at[bus]}, {net.bus.max_vm_pu.at[bus]}]): the converged OPF has vm = {vm:.4f}, outside [{lo}, {hi}]")
+            ppc_lo, ppc_hi = net._ppc["bus"][net._pd2ppc_lookups["bus"][bus], [12, 11]]
+            if abs(ppc_lo - lo) > 1e-9 or abs(ppc_hi - hi) > 1e-9:
+                fails.append(f"gen {g} at bus {bus}: the OPF was given the voltage range [{ppc_lo}, {ppc_hi}] for this bus, declared is [{lo}, {hi}]")
+    for f in fails:
+        print("REPRODUCED:", f)
+    if not fails:
+        print("not reproduced: gen buses keep the intersection of the bus limits and the gen's own voltage limits")
+    sys.exit(1 if fails else 0)
+
+
 if __name__ == "__main__":
     main()
